@@ -88,6 +88,8 @@ impl TopicActor {
 
         tokio::spawn(async move {
             while let Some(request) = receiver.recv().await {
+                #[cfg(deltio_verif)]
+                crate::verif::point("topic_actor.loop").await;
                 actor.receive(request).await;
             }
         });
@@ -187,6 +189,8 @@ impl TopicActor {
         self.messages.extend(messages.iter().map(Arc::clone));
 
         // Post them to all subscriptions.
+        #[cfg(deltio_verif)]
+        crate::verif::point("topic_actor.publish.before_fanout").await;
         let mut set = tokio::task::JoinSet::new();
         for subscription in self.subscriptions.values() {
             // Spawn a future to post messages to each subscription.
@@ -212,6 +216,8 @@ impl TopicActor {
             })?;
         }
 
+        #[cfg(deltio_verif)]
+        crate::verif::point("topic_actor.publish.before_reply").await;
         // Return the list of message IDs that we published.
         Ok(PublishMessagesResponse { message_ids })
     }
